@@ -41,6 +41,9 @@ def run(ck, ctx):
                      "not rejected)")
     ck.rule("R01.10", "integer commands reject what they cannot represent: a client-supplied integer is negated with checked_neg (error on "
                       "i64::MIN), never with a saturating/wrapping negation or a bare `-x` (DECRBY n = INCRBY -n only when -n exists)")
+    ck.rule("R01.11", "a per-element decision reads the live collection: inside a loop that adds to / removes from a stored collection, no "
+                      "branch is taken on an emptiness/size/membership answer obtained from that collection before the loop (the loop "
+                      "itself invalidates it: `ZADD k NX 1 a 2 a` must see the `a` its first pair inserted)")
     ck.nd("equality of every reply and of the keyspace with Redis for all argument values (needs a reference model + execution)")
     ck.nd("option-combination semantics, numeric results")
     for cfg in ctx.configs:
@@ -57,6 +60,7 @@ def run(ck, ctx):
         _r018(ck, prog, cfg, meths)
         _r019(ck, prog, cfg)
         _r0110(ck, prog, cfg, meths)
+        _r0111(ck, prog, cfg, meths)
         _r017(ck, prog, cfg)
 
 
@@ -698,3 +702,54 @@ def _r0110(ck, prog, cfg, meths):
                     n += 1
                     ck.bad("R01.10", "%s:neg%s" % (m.short, _tag(cfg)), "a client-supplied integer is negated with a bare `-x` (overflow on i64::MIN)", f.where(st["ln"]))
     ck.floor("R01.10" + _tag(cfg), n, 1)
+
+
+QUERIES = (r"Redis(List|Set|Hash|SortedSet)::(is_empty|len|contains|score|get|rank|exists|card)$",)
+MUTATORS = ADDERS + SHRINK + (r"RedisSortedSet::(add|incr_by|increment)$", r"RedisHash::(set|incr_by|set_nx)$", r"RedisSet::(add|insert)$",
+                              r"RedisList::(insert|set|push_\w+)$")
+
+
+def _r0111(ck, prog, cfg, meths):
+    n = 0
+    for m, f in _bodies(prog, meths):
+        heads = _loop_heads(f)
+        if not heads:
+            continue
+        for hb, (none_t, some_t) in sorted(heads.items()):
+            body = {some_t} | f.reach([some_t], avoid=[hb])
+            muts = [(b, t) for b, t in f.calls() if b in body and is_callee(t, *MUTATORS) and t["args"]]
+            if not muts:
+                continue
+            n += 1
+            mut_recv = set()
+            for b, t in muts:
+                r = src_of_operand(f, t["args"][0], through_calls=THROUGH)
+                mut_recv.add((r.kind, r.root, r.fields, r.local if r.kind != "path" else None))
+            # queries answered before the loop (their block is not in the body and dominates the head)
+            stale = {}
+            for b, t in f.calls():
+                if b in body or not is_callee(t, *QUERIES) or not t["args"] or not f.dominates(b, hb) or "p" in t["dest"]:
+                    continue
+                r = src_of_operand(f, t["args"][0], through_calls=THROUGH)
+                if (r.kind, r.root, r.fields, r.local if r.kind != "path" else None) in mut_recv:
+                    stale[t["dest"]["l"]] = t
+            if not stale:
+                continue
+            for sb in sorted(body):
+                if f.term(sb)["k"] != "switch":
+                    continue
+                si = switch_info(f, sb)
+                if si is None or si["src"] is None:
+                    continue
+                srcs = [si["src"]]
+                if si["src"].kind == "rv" and si["src"].rv["k"] in ("bin", "un"):
+                    srcs = [src_of_operand(f, si["src"].rv[x], through_calls=TRANSPARENT) for x in ("a", "b") if x in si["src"].rv]
+                for sx in srcs:
+                    if sx.kind == "call" and sx.term["dest"]["l"] in stale and sx.term is stale[sx.term["dest"]["l"]]:
+                        q = callee(sx.term).rsplit("::", 1)[-1]
+                        ck.bad("R01.11", "%s:stale-%s-in-loop%s" % (m.short, q, _tag(cfg)),
+                               "inside the element loop a branch is decided by %s() asked before the loop, while the loop itself changes that "
+                               "collection: a later element of the same command does not see what an earlier one did (repeated members, "
+                               "NX/GT/LT filters)" % q, f.where(f.term(sb)["ln"]))
+    ck.ok("R01.11", "scan" + _tag(cfg), "%d mutating element loops examined" % n)
+    ck.floor("R01.11" + _tag(cfg), n, 5)
